@@ -86,6 +86,8 @@ fn main() {
     match args[1].as_str() {
         "buildinfo" => println!("{}", build_tag()),
         "gen" => {
+            // panics of the code under test are caught per call and logged as data; keep stderr quiet
+            std::panic::set_hook(Box::new(|_| {}));
             let prop = pos.first().expect("property id").clone();
             let mut sh = util::Shards::create(&o.out, &prop, o.shards, &build_tag()).expect("create shards");
             if !o.as_prop.is_empty() {
